@@ -181,14 +181,21 @@ impl<'a, T: ColumnProvider> ExpressionExecutionEngine<'a, T> {
             ExpressionTree::In { is_not, operand, values } => {
                 let executed_operand = self.evaluate(operand)?;
 
+                // x IN (a, b) is x = a OR x = b, x NOT IN (a, b) is x != a AND x != b: a comparison with NULL is never true
+                let mut any_null = executed_operand.is_null();
                 for value in values {
                     let expected_value = self.evaluate(value)?;
-                    if executed_operand == expected_value {
+                    if executed_operand.is_null() || expected_value.is_null() {
+                        any_null = true;
+                        continue;
+                    }
+
+                    if compare_values(&executed_operand, &expected_value)? == Ordering::Equal {
                         return Ok(Value::Bool(!is_not));
                     }
                 }
 
-                Ok(Value::Bool(*is_not))
+                Ok(Value::Bool(*is_not && !any_null))
             }
             ExpressionTree::FunctionCall { function, arguments } => {
                 let mut executed_arguments = Vec::new();
